@@ -62,7 +62,7 @@ CHECKS = {
             "(MC on the grid) + emitted rows / probes (Trace_Gadget.tla)",
             "Design-level exactness of the three gadgets for ub<=12; emitted rows of the real helpers enumerated exactly for "
             "small bounds and probed through HiGHS for larger; call histories validated state by state."),
-    "C13": ("fault_enumeration", "6/C13",
+    "C13": ("model_checking", "6/C13",
             "Lifecycle.tla (MC) generates every fault schedule; injected into the real solver wrapper; traces replayed through "
             "Lifecycle's actions by Trace_Lifecycle.tla",
             "Every position x every inconclusive status (native time limit, interrupt, unknown, custom timeout) of every "
